@@ -260,7 +260,7 @@ def run_case(case):
             if op.startswith("image"):
                 delta = delta - delta[0]     # one common translation per frame
             res = oracle.lattice_residual(delta, H)
-            if (res > ftol).any():
+            if (~(res <= ftol)).any():
                 i = int(np.argmax(res))
                 viol.append((op + "/not-lattice-move", "frame %d atom %d: displacement is not an integer combination of the cell vectors "
                              "(fractional residual %.3g)" % (f, i, res[i])))
